@@ -70,7 +70,8 @@ def node_snap(n):
     tn = type(n).__name__
     d = {'kind': tn, 'priority': a.priority, 'safe': a.safe, 'metadata': repr(sorted(a.metadata.items(), key=str)), 'source_file': a.source_file}
     if hasattr(n, '_func'):
-        d['func'] = repr(a.func)
+        f = a.func
+        d['func'] = (type(f).__name__, str(f)) if isinstance(f, str) else getattr(f, '__qualname__', type(f).__name__)
     if hasattr(n, 'ref_point'):
         d['ref_point'] = n.ref_point
     if hasattr(n, 'filenames'):
@@ -88,6 +89,20 @@ def snapshot(tree):
     for p, n in tree.ayns.nodes_with_paths(include_self=True):
         out.append((str(p), node_snap(n)))
     return out
+
+
+def well_formed(tree):
+    for n in tree.ayns.nodes(include_self=True):
+        if hasattr(n, '_children'):
+            names = [k for k, _ in n.ayns.named_children()]
+            kids = [v for _, v in n.ayns.named_children()]
+            if isinstance(n, list):
+                if names != list(range(len(names))) or len(kids) != list.__len__(n) or any(a is not b for a, b in zip(kids, list.__iter__(n))):
+                    return False
+            elif isinstance(n, dict):
+                if len(kids) != dict.__len__(n) or any(a is not b for a, b in zip(kids, dict.values(n))):
+                    return False
+    return True
 
 
 def all_ids(tree):
@@ -127,6 +142,10 @@ def run_case(case):
         if fam == 'B':
             return Outcome(labels=['skip-merge-fails'])
         raise Violation(f'C19: cannot parse the generated document: {type(e).__name__}: {e}{src}')
+    if not well_formed(t0):
+        # e.g. a list/path node promoted over a mapping that kept protected entries: both views of the container
+        # disagree already in the original (C17 / C04 territory), copying such a tree is not what the statement is about
+        return Outcome(labels=['skip-illformed-original'])
     snap0 = snapshot(t0)
     explicit = any(tdoc.has_flags(n) for d in case['docs'] for p, n in tdoc.walk(d) if p)
     deep = max(tdoc.depth(d) for d in case['docs']) >= 2
